@@ -1,6 +1,7 @@
 package main
 
 import (
+	"sort"
 	"fmt"
 	"strings"
 
@@ -62,9 +63,19 @@ func memoryOf(s *Sess) string {
 	var sb strings.Builder
 	m := s.E.GetModel()
 	fmt.Fprintf(&sb, "p=%v g=%v ", m["p"]["p"].Policy, m["g"]["g"].Policy)
+	// the index map is part of what is held in memory (HasPolicy, RemovePolicy and UpdatePolicy go through it)
+	for _, sec := range []string{"p", "g"} {
+		var ks []string
+		for k, v := range m[sec][sec].PolicyMap {
+			ks = append(ks, fmt.Sprintf("%s=%d", k, v))
+		}
+		sort.Strings(ks)
+		fmt.Fprintf(&sb, "ix%s=%v ", sec, ks)
+	}
 	rm := s.E.GetRoleManager()
-	for _, u := range []string{"alice", "bob", "admin", "carol"} {
-		for _, r := range []string{"alice", "bob", "admin"} {
+	// zed and yan: the names the fault cases add behind the enforcer's back (a link of a rejected load must not show)
+	for _, u := range []string{"alice", "bob", "admin", "carol", "zed", "yan"} {
+		for _, r := range []string{"alice", "bob", "admin", "zed"} {
 			ok, _ := rm.HasLink(u, r)
 			if ok {
 				sb.WriteByte('1')
@@ -112,7 +123,19 @@ func runC10(c *Ctx) {
 			if last.Kind == "load" || last.Kind == "save" {
 				tainted = false // memory and adapter are one again
 			}
-			if tainted {
+			// finding D12 (an update onto a listed rule lists it twice) also leaves the store with the
+			// line twice, and that survives LoadPolicy (which skips duplicates) and a later removal
+			// (which removes one of them): while the store holds a line twice the case is outside WF10
+			dupStore := false
+			seenLine := map[string]bool{}
+			for _, l := range s.A.Lines {
+				k := l.PType + "\x00" + strings.Join(l.Rule, "\x00")
+				if seenLine[k] {
+					dupStore = true
+				}
+				seenLine[k] = true
+			}
+			if tainted || dupStore {
 				c.Count("comparisons_skipped_findings_D12_D18", 1)
 				return
 			}
@@ -178,6 +201,65 @@ func runC11(c *Ctx) {
 	}
 	targets := append(append([]EOp(nil), alpha...), EOp{Kind: "save"}, EOp{Kind: "load"})
 	ms := rbacSpec(false, false)
+	// "no partial batch ever becomes visible": batches that are rejected half-way (an old rule is missing, a
+	// rule is already listed), with unchanged pairs in front, from every prefix state; whatever a call reports
+	// as false or as an error must leave rules, index, links and decisions exactly as they were
+	{
+		A, B := []string{"alice", "data1", "read"}, []string{"bob", "data2", "write"}
+		ghost, ghost2 := []string{"ghost", "data9", "read"}, []string{"ghost", "data9", "write"}
+		GA, GB := []string{"alice", "admin"}, []string{"bob", "admin"}
+		rejectable := []EOp{
+			{Kind: "upds", Sec: "p", PType: "p", Rules: [][]string{A, ghost}, News: [][]string{A, ghost2}},
+			{Kind: "upds", Sec: "p", PType: "p", Rules: [][]string{A, B, ghost}, News: [][]string{A, {"bob", "data2", "read"}, ghost2}},
+			{Kind: "upds", Sec: "p", PType: "p", Rules: [][]string{B, ghost}, News: [][]string{{"bob", "data1", "read"}, ghost2}},
+			{Kind: "upds", Sec: "g", PType: "g", Rules: [][]string{GA, {"ghost", "admin"}}, News: [][]string{GA, {"ghost", "alice"}}},
+			{Kind: "upds", Sec: "g", PType: "g", Rules: [][]string{GA, GB, {"ghost", "admin"}}, News: [][]string{GA, {"bob", "alice"}, {"ghost", "alice"}}},
+			{Kind: "adds", Sec: "p", PType: "p", Rules: [][]string{ghost, A}},
+			{Kind: "rms", Sec: "p", PType: "p", Rules: [][]string{A, ghost}},
+			{Kind: "upd", Sec: "p", PType: "p", Rule: ghost, New: ghost2},
+		}
+		for _, pre := range prefixes {
+			for _, op := range rejectable {
+				s := StartCase(c, ms, CaseOpts{Adapter: true})
+				s.Do(c, EOp{Kind: "adds", Sec: "p", PType: "p", Ex: true, Rules: [][]string{A, B}})
+				s.Do(c, EOp{Kind: "adds", Sec: "g", PType: "g", Ex: true, Rules: [][]string{GA, GB}})
+				for _, o := range pre {
+					s.Do(c, o)
+				}
+				// finding D12: an update onto a rule that is already listed is outside what is claimed
+				d12 := false
+				if op.Kind == "upds" || op.Kind == "upd" {
+					listedNow := map[string]bool{}
+					for _, r := range s.E.GetModel()[op.Sec][op.PType].Policy {
+						listedNow[strings.Join(r, ",")] = true
+					}
+					news, olds := op.News, op.Rules
+					if op.Kind == "upd" {
+						news, olds = [][]string{op.New}, [][]string{op.Rule}
+					}
+					for k, nr := range news {
+						if listedNow[strings.Join(nr, ",")] && strings.Join(olds[k], ",") != strings.Join(nr, ",") {
+							d12 = true
+						}
+					}
+				}
+				before := memoryOf(s)
+				obs := s.Do(c, op)
+				s.Do(c, EOp{Kind: "obs", Args: []string{"pol", "p", "p"}})
+				s.Do(c, EOp{Kind: "obs", Args: []string{"pol", "g", "g"}})
+				after := memoryOf(s)
+				c.Evals++
+				c.Count("rejected_batch_result="+obs, 1)
+				if d12 {
+					c.Count("rejected_batch_skipped_finding_D12", 1)
+					continue
+				}
+				if (obs == "false" || strings.HasPrefix(obs, "err")) && before != after {
+					c.Direct("a call that reported false or an error changed the in-memory state (a rejected batch became partly visible)", fmt.Sprintf("prefix: %s\ncall: %s -> %s\nbefore: %s\nafter:  %s", histText(pre), op.Line(), obs, before, after))
+				}
+			}
+		}
+	}
 	for _, pre := range prefixes {
 		for _, op := range targets {
 			for k := 1; k <= 2; k++ {
@@ -305,7 +387,21 @@ func runC15(c *Ctx) {
 			}
 			var peer *casbin.Enforcer
 			var lastLen int
+			// findings D18 / D12: a batch update naming an unlisted rule (or an update-filtered whose
+			// filter selects nothing) changes the store and then reports false; from then on store and
+			// memory differ until SavePolicy, and peer convergence (which goes through the store) is
+			// not claimed (opWF10)
+			storeTainted := false
 			cfg.AfterStep = func(c *Ctx, s *Sess, hist []EOp, obs string) {
+				if len(hist) == 1 {
+					storeTainted = false
+				}
+				if lk := hist[len(hist)-1].Kind; (lk == "upds" || lk == "updf") && obs == "false" {
+					storeTainted = true
+				}
+				if hist[len(hist)-1].Kind == "save" && obs == "ok" {
+					storeTainted = false
+				}
 				if len(hist) == 1 {
 					// a peer sharing the adapter; it reloads on every notification (synchronous bus)
 					peer, _ = casbin.NewEnforcer(rbacSpec(false, false).Build(), s.A)
@@ -347,7 +443,17 @@ func runC15(c *Ctx) {
 						}
 						seen[strings.Join(r, ",")] = true
 					}
-					if a, b := decisionsOf(s.E), decisionsOf(peer); a != b && !dup {
+					seenLine := map[string]bool{}
+					for _, l := range s.A.Lines {
+						k := l.PType + "\x00" + strings.Join(l.Rule, "\x00")
+						if seenLine[k] {
+							dup = true // the store holds a line twice (D12)
+						}
+						seenLine[k] = true
+					}
+					if storeTainted {
+						c.Count("peer_comparisons_skipped_findings_D12_D18", 1)
+					} else if a, b := decisionsOf(s.E), decisionsOf(peer); a != b && !dup {
 						c.Direct("a peer that reloads on the notification does not reach the originator's decisions", fmt.Sprintf("%s: %s\noriginator=%s peer=%s", cfg.Name, histText(hist), a, b))
 					}
 					c.Count("peer_comparisons", 1)
